@@ -34,6 +34,7 @@ def observer(got, pred, sp, call, sg, prog, ctx, part):
     if not pts:
         bump(part, 'cases_without_regular_point_for_derivative')
     vm = ctx.varmap
+    param_step(got, den, sp, own_names, vm, ctx, part, bad)
     for V in vlists(sp, own_names, ctx):
         vars_ = [vm[n] for n in V]
         n = len(V)
@@ -85,6 +86,45 @@ def observer(got, pred, sp, call, sg, prog, ctx, part):
                         bad('compute_hessian entry differs from the true second derivative',
                             {'V': V, 'entry': [i, j], 'got': s, 'expected': w, 'point': {k: str(v) for k, v in pt.items()}})
                         return
+
+
+def param_step(got, den, sp, names, vm, ctx, part, bad):
+    """A Hessian compiled while the parameter holds one value is called after Parameter.set."""
+    from optyx.core import autodiff
+    from fractions import Fraction as Fr
+    from .c01 import _pars
+    pids = set(_pars(den))
+    if not pids or not ctx.pars or not names or len(names) > 3:
+        return
+    H = {(name_of(k[0]), name_of(k[1])): v for k, v in (sp['H'].items() if isinstance(sp['H'], dict) else [])}
+    vars_ = [vm[n] for n in names]
+    try:
+        fn = autodiff.compile_hessian(got, vars_)
+    except Exception:
+        return
+    for pid in pids:
+        old = ctx.pars[pid]
+        for new in (old + Fr(5, 4), Fr(1), old):
+            ctx.parobjs[pid].set(float(new))
+            pars2 = dict(ctx.pars)
+            pars2[pid] = new
+            try:
+                for pt in ctx.points[:3]:
+                    if not second_regular(den, sp['D'], pt, pars2):
+                        continue
+                    try:
+                        want = [[progjudge.oracle(H.get((a, b), ZERO), pt, pars2) for b in names] for a in names]
+                    except Irregular:
+                        continue
+                    have = np.asarray(fn(np.array([float(pt[n]) for n in names], dtype=float)), dtype=float)
+                    part['evaluations'] += 1
+                    for i in range(len(names)):
+                        for j in range(len(names)):
+                            if not interp.close(float(have[i, j]), want[i][j][0], want[i][j][1]):
+                                bad('compiled Hessian does not follow a parameter changed after compiling', {'entry': [i, j], 'got': float(have[i, j]), 'expected': want[i][j][0], 'parameter': float(new)})
+                                return
+            finally:
+                ctx.parobjs[pid].set(float(old))
 
 
 def run(report, tier):
